@@ -81,6 +81,8 @@ struct Case {
     /// 0: sibling files keep their names; 1: every imported sibling is renamed `name-1.0.xsd` (the schemaLocations are
     /// rewritten accordingly): names with more than one dot
     sib_style: u64,
+    /// PWD in the tool's environment: 0 unset; 1 the real working directory; 2 another directory (a stale PWD)
+    pwd_env: u64,
     /// after the (possibly faulted or failing) run, the tool is started again in the SAME tree without any fault:
     /// whatever the first run left behind (partial output, temporary files) must not change the second result
     rerun: bool,
@@ -91,6 +93,10 @@ const LINK_STYLES: [&str; 3] = ["regular files", "siblings are symlinks", "direc
 
 fn arg_form_name(k: u64) -> &'static str {
     ["-i P -o Q", "--output Q --input P", "--input=P --output=Q", "-oQ -iP", "-i=P -o=Q"][k as usize % 5]
+}
+
+fn pwd_name(k: u64) -> &'static str {
+    ["unset", "the real working directory", "another directory (stale)"][k as usize % 3]
 }
 
 fn tmpdir_name(k: u64) -> &'static str {
@@ -140,7 +146,8 @@ fn decode_case(ch: &mut Chooser, nsets: usize) -> Case {
     let tmpdir = ch.choose("tmpdir", 3);
     let sib_style = ch.choose("sibling_name_style", 2);
     let rerun = ch.choose("rerun_in_same_tree", 2) == 1;
-    Case { input, spelling, output, pre, extra, longflags, arg_form, entropy, dirperm, fault, name_style, link_style, stderr_full, rust_log, tmpdir, sib_style, rerun }
+    let pwd_env = ch.choose("pwd_env", 3);
+    Case { input, spelling, output, pre, extra, longflags, arg_form, entropy, dirperm, fault, name_style, link_style, stderr_full, rust_log, tmpdir, sib_style, rerun, pwd_env }
 }
 
 fn encode_case(c: &Case) -> Vec<u64> {
@@ -153,7 +160,7 @@ fn encode_case(c: &Case) -> Vec<u64> {
     } else {
         t.push(0);
     }
-    t.extend([c.name_style, c.link_style, u64::from(c.stderr_full), c.rust_log, c.tmpdir, c.sib_style, u64::from(c.rerun)]);
+    t.extend([c.name_style, c.link_style, u64::from(c.stderr_full), c.rust_log, c.tmpdir, c.sib_style, u64::from(c.rerun), c.pwd_env]);
     t
 }
 
@@ -423,7 +430,15 @@ fn run_once(sets: &[InputSet], c: &Case, spelling: u64, expected: &Expected) -> 
         // clock and pid follow the entropy choice: two cases differ in them, the two runs of one case do not
         clock_base: if c.entropy == 0 { 0 } else { 1_000_000_000 + c.entropy % 3_000_000_000 },
         pid: if c.entropy == 0 { 0 } else { 2 + c.entropy % 4_000_000 },
-        extra_env: if c.entropy == 0 { vec![] } else { vec![("USER".into(), format!("user{}", c.entropy % 97)), ("HOME".into(), format!("/home/u{}", c.entropy % 89)), ("LANG".into(), ["C", "de_DE.UTF-8"][(c.entropy % 2) as usize].into())] },
+        extra_env: {
+            let mut env: Vec<(String, String)> = if c.entropy == 0 { vec![] } else { vec![("USER".into(), format!("user{}", c.entropy % 97)), ("HOME".into(), format!("/home/u{}", c.entropy % 89)), ("LANG".into(), ["C", "de_DE.UTF-8"][(c.entropy % 2) as usize].into())] };
+            match c.pwd_env {
+                1 => env.push(("PWD".into(), cwd.to_string_lossy().to_string())),
+                2 => env.push(("PWD".into(), outdir.to_string_lossy().to_string())), // stale: the shell's idea, not the process's
+                _ => {}
+            }
+            env
+        },
         tmpdir: Some(match c.tmpdir {
             1 => out_abs.parent().map_or_else(|| top.clone(), Path::to_path_buf),
             2 => PathBuf::from("."),
@@ -643,7 +658,7 @@ fn case_json(sets: &[InputSet], c: &Case) -> Value {
         "input_set": sets[c.input].name, "stage": sets[c.input].stage, "start_file": sets[c.input].start,
         "files": sets[c.input].files.iter().map(|(n, b)| json!({"name": n, "bytes": b.len(), "hash": format!("{:016x}", simkernel::hash_bytes(b))})).collect::<Vec<_>>(),
         "spelling": SPELLINGS[c.spelling as usize], "output": OUTPUTS[c.output as usize], "preexisting_output": PRE[c.pre as usize],
-        "extra_entries": EXTRAS[c.extra as usize], "stderr": if c.stderr_full { "/dev/full" } else { "pipe" }, "RUST_LOG": rust_log_name(c.rust_log), "TMPDIR": tmpdir_name(c.tmpdir), "second_run_in_same_tree": c.rerun, "sibling_names": if c.sib_style == 1 { "renamed name-1.0.xsd" } else { "as in the set" }, "argument_form": arg_form_name(c.arg_form), "start_file_name": styled_start(&sets[c.input].start, c.name_style), "name_style": NAME_STYLES[c.name_style as usize], "link_style": LINK_STYLES[c.link_style as usize],
+        "extra_entries": EXTRAS[c.extra as usize], "stderr": if c.stderr_full { "/dev/full" } else { "pipe" }, "RUST_LOG": rust_log_name(c.rust_log), "TMPDIR": tmpdir_name(c.tmpdir), "second_run_in_same_tree": c.rerun, "PWD": pwd_name(c.pwd_env), "sibling_names": if c.sib_style == 1 { "renamed name-1.0.xsd" } else { "as in the set" }, "argument_form": arg_form_name(c.arg_form), "start_file_name": styled_start(&sets[c.input].start, c.name_style), "name_style": NAME_STYLES[c.name_style as usize], "link_style": LINK_STYLES[c.link_style as usize],
         "entropy": format!("{:x}", c.entropy), "dirperm": c.dirperm,
         "fault": c.fault.as_ref().map(FaultSpec::describe),
     })
@@ -807,10 +822,13 @@ fn build_tapes(sets: &[InputSet], tier: &str, seed: u64) -> (Vec<Vec<u64>>, Valu
                         if !thorough && (input as u64 * 7 + spelling * 5 + output * 3 + pre + *extra) % 19 != 0 {
                             continue;
                         }
+                        if !thorough && sets[input].name.starts_with("large-") && (spelling + output + pre) % 4 != 0 {
+                            continue; // inputs above 1 MiB cost ~50 ms per run: a quarter of their product cells in quick
+                        }
                         if *extra == 9 && (input > 1 || output > 0 || pre > 2) {
                             continue; // 256 files per run: a few cases are enough, the seeded mixes add more
                         }
-                        let c = Case { input, spelling, output, pre, extra: *extra, longflags: (spelling + output) % 4 == 1, arg_form: (spelling + output + pre) % 5, entropy: 0, dirperm: if *extra == 2 { 7 } else { 0 }, fault: None, name_style: ((input as u64 + spelling) % 4) * u64::from((output + pre) % 2 == 0), link_style: ((spelling + pre + *extra) % 3) * u64::from((input as u64 + output) % 2 == 1), stderr_full: (input as u64 + spelling + pre) % 5 == 0, rust_log: (spelling + output + pre) % 3, tmpdir: (input as u64 + output + *extra) % 3, sib_style: (spelling + *extra) % 2, rerun: (input as u64 + pre) % 3 == 0 };
+                        let c = Case { input, spelling, output, pre, extra: *extra, longflags: (spelling + output) % 4 == 1, arg_form: (spelling + output + pre) % 5, entropy: 0, dirperm: if *extra == 2 { 7 } else { 0 }, fault: None, name_style: ((input as u64 + spelling) % 4) * u64::from((output + pre) % 2 == 0), link_style: ((spelling + pre + *extra) % 3) * u64::from((input as u64 + output) % 2 == 1), stderr_full: (input as u64 + spelling + pre) % 5 == 0, rust_log: (spelling + output + pre) % 3, tmpdir: (input as u64 + output + *extra) % 3, sib_style: (spelling + *extra) % 2, rerun: (input as u64 + pre) % 3 == 0, pwd_env: (spelling + output + *extra) % 3 };
                         tapes.push(encode_case(&c));
                         n_cfg += 1;
                     }
@@ -822,24 +840,24 @@ fn build_tapes(sets: &[InputSet], tier: &str, seed: u64) -> (Vec<Vec<u64>>, Valu
     let idx_of = |name: &str| sets.iter().position(|s| s.name == name);
     let mut scen = Vec::new();
     if let Some(i) = idx_of("tempconverter") {
-        scen.push(Case { input: i, spelling: 2, output: 0, pre: 2, extra: 0, longflags: false, arg_form: 0, entropy: 0, dirperm: 0, fault: None, name_style: 0, link_style: 0, stderr_full: false, rust_log: 0, tmpdir: 0, sib_style: 0, rerun: true });
+        scen.push(Case { input: i, spelling: 2, output: 0, pre: 2, extra: 0, longflags: false, arg_form: 0, entropy: 0, dirperm: 0, fault: None, name_style: 0, link_style: 0, stderr_full: false, rust_log: 0, tmpdir: 0, sib_style: 0, rerun: true, pwd_env: 2 });
     }
     if let Some(i) = idx_of("chain") {
-        scen.push(Case { input: i, spelling: 1, output: 2, pre: 1, extra: 1, longflags: true, arg_form: 1, entropy: 0, dirperm: 3, fault: None, name_style: 1, link_style: 1, stderr_full: false, rust_log: 1, tmpdir: 1, sib_style: 1, rerun: true });
+        scen.push(Case { input: i, spelling: 1, output: 2, pre: 1, extra: 1, longflags: true, arg_form: 1, entropy: 0, dirperm: 3, fault: None, name_style: 1, link_style: 1, stderr_full: false, rust_log: 1, tmpdir: 1, sib_style: 1, rerun: true, pwd_env: 1 });
     }
     if let Some(i) = idx_of("big-cwmp") {
         // an output larger than 64 KiB: a tool that writes in chunks is failed at each of its chunks
-        scen.push(Case { input: i, spelling: 1, output: 1, pre: 2, extra: 0, longflags: false, arg_form: 0, entropy: 0, dirperm: 0, fault: None, name_style: 0, link_style: 0, stderr_full: false, rust_log: 0, tmpdir: 0, sib_style: 0, rerun: true });
+        scen.push(Case { input: i, spelling: 1, output: 1, pre: 2, extra: 0, longflags: false, arg_form: 0, entropy: 0, dirperm: 0, fault: None, name_style: 0, link_style: 0, stderr_full: false, rust_log: 0, tmpdir: 0, sib_style: 0, rerun: true, pwd_env: 2 });
     }
     if thorough {
         if let Some(i) = idx_of("hello") {
-            scen.push(Case { input: i, spelling: 4, output: 3, pre: 0, extra: 0, longflags: false, arg_form: 0, entropy: 0, dirperm: 0, fault: None, name_style: 0, link_style: 0, stderr_full: false, rust_log: 0, tmpdir: 0, sib_style: 0, rerun: true });
+            scen.push(Case { input: i, spelling: 4, output: 3, pre: 0, extra: 0, longflags: false, arg_form: 0, entropy: 0, dirperm: 0, fault: None, name_style: 0, link_style: 0, stderr_full: false, rust_log: 0, tmpdir: 0, sib_style: 0, rerun: true, pwd_env: 2 });
         }
         if let Some(i) = idx_of("malformed-sibling") {
-            scen.push(Case { input: i, spelling: 5, output: 1, pre: 2, extra: 0, longflags: false, arg_form: 0, entropy: 0, dirperm: 0, fault: None, name_style: 0, link_style: 0, stderr_full: false, rust_log: 0, tmpdir: 0, sib_style: 0, rerun: true });
+            scen.push(Case { input: i, spelling: 5, output: 1, pre: 2, extra: 0, longflags: false, arg_form: 0, entropy: 0, dirperm: 0, fault: None, name_style: 0, link_style: 0, stderr_full: false, rust_log: 0, tmpdir: 0, sib_style: 0, rerun: true, pwd_env: 2 });
         }
         if let Some(i) = idx_of("orders") {
-            scen.push(Case { input: i, spelling: 1, output: 0, pre: 2, extra: 3, longflags: false, arg_form: 0, entropy: 0, dirperm: 5, fault: None, name_style: 2, link_style: 2, stderr_full: true, rust_log: 2, tmpdir: 2, sib_style: 0, rerun: true });
+            scen.push(Case { input: i, spelling: 1, output: 0, pre: 2, extra: 3, longflags: false, arg_form: 0, entropy: 0, dirperm: 5, fault: None, name_style: 2, link_style: 2, stderr_full: true, rust_log: 2, tmpdir: 2, sib_style: 0, rerun: true, pwd_env: 2 });
         }
     }
     let mut enumerated = Vec::new();
